@@ -53,6 +53,53 @@ Theorem C41_fix_exact : forall root p s, put true root p = Some s ->
 Proof. exact fix_exact. Qed.
 Print Assumptions C41_fix_exact.
 
+(** Read side, all reference kinds and all flag settings: for EVERY root and
+    FullPath (file-shaped or URL-shaped, including "http://../.."), EVERY
+    AllowFiles/AllowUrls setting at Put time and EVERY setting at read time (the
+    configuration may change between runs over the same datastore): the local
+    path that Get / Verify open for the stored reference, if any, lies inside the
+    root. *)
+Theorem C41_read_confined : forall root p af au s,
+  put_ref false af au root p = PStored s ->
+  forall gf gu, match read_disp gf gu root s with
+                | DFile c => inside root c = true
+                | _ => True
+                end.
+Proof. exact read_confined. Qed.
+Print Assumptions C41_read_confined.
+
+(** The dispatcher respects the kind a reference was stored as: a URL reference
+    (stored verbatim, unchecked) is never opened as a local file whatever the
+    flags, a file reference is never fetched as a URL (its stored form is never
+    URL-shaped: [C41_file_ref_not_url]), and each reader needs its own flag. *)
+Theorem C41_dispatch_kind : forall root p af au s gf gu,
+  put_ref false af au root p = PStored s ->
+  match read_disp gf gu root s with
+  | DFile c => is_url p = false /\ gf = true /\ af = true
+  | DUrl => is_url p = true /\ gu = true /\ au = true /\ s = p
+  | DNotEnabled => if is_url p then gu = false else gf = false
+  end.
+Proof. exact dispatch_kind. Qed.
+Print Assumptions C41_dispatch_kind.
+
+Theorem C41_file_ref_not_url : forall root p s, put false root p = Some s -> is_url s = false.
+Proof. exact put_not_url. Qed.
+Print Assumptions C41_file_ref_not_url.
+
+(** Why the dispatcher matters: the URL-shaped reference "http://../../r/x" is
+    accepted verbatim when AllowUrls is on; with AllowUrls off at read time the
+    dispatcher answers "not enabled" — were it handed to the file reader,
+    Join(root, reference) would be "/r/r/x", outside "/r/root". *)
+Definition w_url : str := [104;116;116;112;58;47;47;46;46;47;46;46;47;114;47;120].   (* "http://../../r/x" *)
+Example C41_hostile_url :
+  is_url w_url = true /\
+  put_ref false true true w_root w_url = PStored w_url /\
+  read_disp true false w_root w_url = DNotEnabled /\
+  read_disp true true w_root w_url = DUrl /\
+  render (resolved w_root w_url) = [47;114;47;114;47;120] /\
+  inside w_root (resolved w_root w_url) = false.
+Proof. vm_compute. repeat split; reflexivity. Qed.
+
 (** Non-vacuity: references inside the root — also through "." , "//", "sub/.."
     spellings, a trailing slash on the root, a relative root — are accepted. *)
 Example C41_example_accepts :
